@@ -543,3 +543,58 @@ def chunkify(rng, ops, max_lines=5, p_join=0.6):
         else:
             out.append(op)
     return out
+
+
+def add_races(rng, version, ops, kind, n=(2, 5)):
+    """Insert controller-call races (see NetRun.op_race) into an op list.  ``kind``: "set" (a
+    set_child_value for a NEW value type of a sleeping node's child racing with that node's
+    wake-up) or "fw" (an update call racing with the node's config request, followed by a
+    sequential config request that must be answered)."""
+    model = GatewayModel(version)
+    out = []
+    wake_sub = 32 if version == "2.2" else 22
+    fresh_types = [24, 25, 26, 27, 28, 0, 1, 4, 38, 39]
+    budget = rng.randint(*n)
+    for op in ops:
+        out.append(op)
+        if op[0] == "line":
+            fields = tables.parse_canonical(op[1])
+            if fields is not None and tables.valid_frame(version, *fields) is True:
+                exp = model.on_line(fields, (0, 0))
+                if exp.id_response is not None:
+                    nxt = max(model.nodes, default=0) + 1
+                    if nxt <= 254:
+                        model.on_id_assigned(nxt)
+        if budget <= 0 or rng.random() > 0.25:
+            continue
+        if kind == "set":
+            sleepers = [n_ for n_ in model.nodes if model.sleeping(n_)]
+            if not sleepers:
+                continue
+            nid = rng.choice(sleepers)
+            cid = rng.choice(model.nodes[nid]["sleep_children"])
+            child = model.nodes[nid]["children"][cid]
+            have = [t for t in child["values"]]
+            new_types = [t for t in fresh_types if t not in model.nodes[nid]["desired"].get(cid, {})]
+            if not have or not new_types:
+                # make sure something is pending and something was reported
+                out.append(["line", f"{nid};{cid};1;0;{rng.choice(fresh_types[:5])};r{rng.randrange(100)}"])
+                continue
+            vt = rng.choice(new_types)
+            out.append(["set", nid, cid, have[0], f"d{rng.randrange(100)}", {}])
+            out.append(["race", {"line": f"{nid};255;3;0;{wake_sub};{rng.randrange(1000)}", "call": ["set", nid, cid, vt, f"n{rng.randrange(100)}"]}])
+            model.store_desired(nid, cid, vt, "x")
+            budget -= 1
+        else:
+            known = list(model.nodes)
+            if not known:
+                continue
+            nid = rng.choice(known)
+            ftype, fver = rng.choice([1, 2, 10]), rng.choice([1, 2])
+            image = bytes(rng.randrange(256) for _ in range(rng.choice([16, 100, 128, 200]))).hex()
+            cfg_req = f"{nid};255;4;0;0;{le16(1, 1, 8, 0xABCD, 0x0102)}"
+            out.append(["race", {"line": cfg_req, "call": ["fw", [nid], ftype, fver, image]}])
+            out.append(["line", cfg_req])
+            model.ota.schedule(model.nodes, [nid], ftype, fver, bytes.fromhex(image))
+            budget -= 1
+    return out
